@@ -659,6 +659,52 @@ func init() {
 		builderSet(in, p, "")
 		return nil
 	})
+	// sync/atomic: the interpreter switches goroutines only at synchronisation points, so plain loads and
+	// stores are atomic
+	for _, ty := range []string{"Int32", "Int64", "Uint32", "Uint64", "Uintptr", "Pointer"} {
+		ty := ty
+		reg("sync/atomic.Load"+ty, func(in *Interp, fr *frame, a []Value) Value {
+			p, _ := a[0].(*Value)
+			if p == nil {
+				in.rtPanic("nil pointer dereference in atomic load")
+			}
+			return copyVal(*p)
+		})
+		reg("sync/atomic.Store"+ty, func(in *Interp, fr *frame, a []Value) Value {
+			p, _ := a[0].(*Value)
+			if p == nil {
+				in.rtPanic("nil pointer dereference in atomic store")
+			}
+			*p = copyVal(a[1])
+			return nil
+		})
+		reg("sync/atomic.Swap"+ty, func(in *Interp, fr *frame, a []Value) Value {
+			p, _ := a[0].(*Value)
+			old := copyVal(*p)
+			*p = copyVal(a[1])
+			return old
+		})
+		if ty != "Pointer" {
+			reg("sync/atomic.Add"+ty, func(in *Interp, fr *frame, a []Value) Value {
+				p, _ := a[0].(*Value)
+				cur, _ := (*p).(*Term)
+				d, _ := a[1].(*Term)
+				n := BvBin(OAdd, cur, d)
+				*p = n
+				return n
+			})
+			reg("sync/atomic.CompareAndSwap"+ty, func(in *Interp, fr *frame, a []Value) Value {
+				p, _ := a[0].(*Value)
+				cur, _ := (*p).(*Term)
+				old, _ := a[1].(*Term)
+				if in.decide(Eq(cur, old)) {
+					*p = copyVal(a[2])
+					return tTrue
+				}
+				return tFalse
+			})
+		}
+	}
 	reg("internal/abi.NoEscape", func(in *Interp, fr *frame, a []Value) Value { return a[0] })
 	reg("strings.Join", func(in *Interp, fr *frame, a []Value) Value {
 		elems, _ := a[0].(Slice)
